@@ -34,7 +34,7 @@ class C13(ProgramProperty):
             "(bind_namespaces='none', incl. a default namespace), upgrade_prefix_map in two dictionary orders, and "
             "from JSON files given as str and as Path; records, bimap and expand / compress / standardize answers "
             "are read from every loaded converter. Non-trivial = the map is non-bijective or a reverse-map group has "
-            "two URI prefixes of the same minimal length. File names include local names that look like 'scheme:rest'. In 40 % of the cases a loaded converter is curated (merge) and the same data is loaded again.")
+            "two URI prefixes of the same minimal length. File names include local names that look like 'scheme:rest'. In 40 % of the cases a loaded converter is curated (merge) and the same data is loaded again. In 30 % of the cases every loader of the case is called with delimiter=... and must return a converter with that delimiter.")
 
     def budget(self, tier):
         return 1200 if tier == "quick" else 30000
@@ -57,15 +57,20 @@ class C13(ProgramProperty):
             for u in [r["u"]] + r["us"]:
                 rev.append([u, r["p"]])
         rng.shuffle(rev)
+        # every loader hands its keyword arguments on to the constructor: in 30 % of the cases all loaders of the case are
+        # called with delimiter=... (the records use ':' freely in their names, so another delimiter is always legal here)
+        kw = {"delim": cps(rng.choice(["/", "|", "::", "_"]))} if rng.random() < 0.3 else {}
         steps = []
-        steps += [{"op": "load_pm", "dst": 0, "data": bij}]
-        steps += [{"op": "load_priority", "dst": 1, "data": prio}]
-        steps += [{"op": "load_reverse", "dst": 2, "data": rev}]
+        steps += [{"op": "load_pm", "dst": 0, "data": bij, **kw}]
+        steps += [{"op": "load_priority", "dst": 1, "data": prio, **kw}]
+        steps += [{"op": "load_reverse", "dst": 2, "data": rev, **kw}]
         steps += [init_step(3, recs)]                       # from_extended_prefix_map with dicts: see run_impl
         steps[-1]["via"] = "epm_dicts"
+        if kw:
+            steps[-1]["delim"] = kw["delim"]
         # ... and with Record objects / dicts handed over in other iterable types (generic interpreter)
         steps += [dict(init_step(11, recs), via=rng.choice(["epm_records", "epm_dicts2", "load_epm"]),
-                       container=rng.choice(["list", "tuple", "iter", "generator", "dict_values"]))]
+                       container=rng.choice(["list", "tuple", "iter", "generator", "dict_values"]), **kw)]
         ctx = []
         for k, v in bij:
             ctx.append([k, {"s": v}] if rng.random() < 0.6 else [k, {"pd": v}])
@@ -75,7 +80,7 @@ class C13(ProgramProperty):
             if rng.random() < 0.4 and not any(uncps(k2) == k for k2, _ in bij):
                 ctx.append([cps(k), v])
         rng.shuffle(ctx)
-        steps += [{"op": "load_jsonld", "dst": 4, "data": ctx}]
+        steps += [{"op": "load_jsonld", "dst": 4, "data": ctx, **kw}]
         steps += [{"op": "load_upgrade", "dst": 5, "data": pm}]
         pm2 = list(pm)
         rng.shuffle(pm2)
@@ -86,11 +91,11 @@ class C13(ProgramProperty):
                                       "obo:prefixes.json", "v1.2:ppm.json", "c:x.json", "file:pm.json", "urn:x:y.json",
                                       # a local file called exactly like a URL scheme
                                       "http", "https", "ftp"])},
-                  {"op": "load_file_pm", "dst": 7, "data": bij, "as": "path"},
-                  {"op": "load_file_jsonld", "dst": 8, "data": ctx, "as": rng.choice(["str", "path"])},
-                  {"op": "load_file_epm", "dst": 9, "records": recs, "as": rng.choice(["str", "path"])}]
+                  {"op": "load_file_pm", "dst": 7, "data": bij, "as": "path", **kw},
+                  {"op": "load_file_jsonld", "dst": 8, "data": ctx, "as": rng.choice(["str", "path"]), **kw},
+                  {"op": "load_file_epm", "dst": 9, "records": recs, "as": rng.choice(["str", "path"]), **kw}]
         rdf = [[r["p"], r["u"]] for r in recs if all(ch.isalnum() for ch in uncps(r["p"])) or uncps(r["p"]) == ""]
-        steps += [{"op": "load_rdflib", "dst": 10, "data": rdf}]
+        steps += [{"op": "load_rdflib", "dst": 10, "data": rdf, **kw}]
         probes_p = gen.all_prefixes(recs)[:6]
         probes_u = [u + "1" for u in gen.all_uris(recs)[:5]]
         for c in range(0, 12):
@@ -149,7 +154,8 @@ class C13(ProgramProperty):
                               "prefix_synonyms": [uncps(x) for x in r["ps"]],
                               "uri_prefix_synonyms": [uncps(x) for x in r["us"]],
                               **({"pattern": uncps(r["pat"])} if r.get("pat") is not None else {})} for r in st["records"]]
-                    results[i] = Converter.from_extended_prefix_map(dicts)
+                    results[i] = Converter.from_extended_prefix_map(
+                        dicts, **({"delimiter": uncps(st["delim"])} if st.get("delim", [58]) != [58] else {}))
                 elif st["op"] == "load_rdflib":
                     import rdflib
 
@@ -157,7 +163,7 @@ class C13(ProgramProperty):
                     for p, u in st["data"]:
                         g.bind(uncps(p), rdflib.Namespace(uncps(u)))
                     st["_namespaces"] = [[cps(str(p)), cps(str(n))] for p, n in g.namespaces()]
-                    results[i] = Converter.from_rdflib(g)
+                    results[i] = Converter.from_rdflib(g, **common.loader_kwargs(st))
                 else:
                     path = os.path.join(tmp, st.get("name") or f"f{i}.json")
                     if st["op"] == "load_file_pm":
@@ -177,27 +183,28 @@ class C13(ProgramProperty):
                         cwd = os.getcwd()
                         os.chdir(tmp)
                         try:
-                            results[i] = loader(os.path.basename(path))   # a relative location given as str
+                            results[i] = loader(os.path.basename(path), **common.loader_kwargs(st))   # a relative location given as str
                         finally:
                             os.chdir(cwd)
                     else:
-                        results[i] = loader(path if st["as"] == "str" else Path(path))
+                        results[i] = loader(path if st["as"] == "str" else Path(path), **common.loader_kwargs(st))
             except Exception as e:  # noqa: BLE001
                 results[i] = e
         return common.run_impl(steps, injected=results)
 
     def request(self, case, impl):
         # the model loads the *object*: file loaders are translated to their object counterparts
+        dl = lambda st: {"delim": st["delim"]} if "delim" in st else {}
         steps = []
         for st in case["steps"]:
             if st["op"] == "load_file_pm":
-                steps.append({"op": "load_pm", "dst": st["dst"], "data": st["data"]})
+                steps.append({"op": "load_pm", "dst": st["dst"], "data": st["data"], **dl(st)})
             elif st["op"] == "load_file_jsonld":
-                steps.append({"op": "load_jsonld", "dst": st["dst"], "data": st["data"]})
+                steps.append({"op": "load_jsonld", "dst": st["dst"], "data": st["data"], **dl(st)})
             elif st["op"] == "load_file_epm":
-                steps.append({"op": "init", "dst": st["dst"], "records": st["records"]})
+                steps.append({"op": "init", "dst": st["dst"], "records": st["records"], **dl(st)})
             elif st["op"] == "load_rdflib":
-                steps.append({"op": "load_pm", "dst": st["dst"], "data": st.get("_namespaces", st["data"])})
+                steps.append({"op": "load_pm", "dst": st["dst"], "data": st.get("_namespaces", st["data"]), **dl(st)})
             else:
                 steps.append({k: v for k, v in st.items() if k != "via"})
         return {"k": "prog", "steps": steps, "obs": impl, "fold": []}
@@ -207,6 +214,17 @@ class C13(ProgramProperty):
 
     def laws(self, case, impl):
         fails = []
+        # the keyword arguments reach the constructor: a loader called with delimiter=d returns a converter with that delimiter
+        want = {st["dst"]: uncps(st.get("delim", [58])) for st in case["steps"]
+                if st.get("dst") is not None and (st["op"].startswith("load_") or st["op"] == "init") and not st.get("_tail")}
+        seen = set()
+        for st, v in zip(case["steps"], impl):
+            if st["op"] == "q" and st["m"] == "delimiter" and st["c"] in want and st["c"] not in seen and isinstance(v, dict) and "s" in v:
+                seen.add(st["c"])
+                v = uncps(v["s"])
+                if v != want[st["c"]]:
+                    how = next(s_["op"] + ("/" + s_["via"] if s_.get("via") else "") for s_ in case["steps"] if s_.get("dst") == st["c"])
+                    fails.append(f"the converter loaded by {how} with delimiter={want[st['c']]!r} has the delimiter {v!r}")
         ups = [v for st, v in zip(case["steps"], impl) if st["op"] == "upgrade"]
         if len(ups) == 2 and ups[0] != ups[1]:
             fails.append("upgrade_prefix_map depends on the dictionary order")
